@@ -350,7 +350,7 @@ func normalisePanic(s string) string {
 	return s
 }
 
-var goFrameRe = regexp.MustCompile(`^(github\.com/frobnitzem/go-p9p\S*?)\(`)
+var goFrameRe = regexp.MustCompile(`^(github\.com/frobnitzem/go-p9p\S*)\([^()]*\)$`)
 
 // crashSite returns the innermost function of the repository on the panicking stack.
 func crashSite(stderr string) string {
